@@ -456,6 +456,15 @@ fn run_case(case: &Value) -> Value {
             let _ = std::fs::remove_dir_all(&dir);
             json!({"result": r.is_ok(), "mtime_after": after})
         }
+        "header_encode" => {
+            let t = copia::MessageType::from_u8(case["type"].as_u64().unwrap() as u8).unwrap();
+            let mut h = copia::FrameHeader::new(t, case["length"].as_u64().unwrap() as u32);
+            h.flags = case["flags"].as_u64().unwrap_or(0) as u16;
+            let e = h.encode();
+            let back = copia::FrameHeader::decode(&e);
+            json!({"encode": e.to_vec(), "decode_ok": back.is_ok(),
+                   "decoded_length": back.as_ref().map(|x| x.length).unwrap_or(0), "decoded_flags": back.as_ref().map(|x| x.flags).unwrap_or(0)})
+        }
         "header_decode" => {
             let b = bytes_of(&case["buf"]);
             let mut a = [0u8; 12];
